@@ -278,6 +278,66 @@ def extra(tier, seed, st):
                     label = ("-r " if revert else "") + "-f long line %d bytes" % len(line)
                     judge(label, (["-r"] if revert else []) + ["-f", "tips.txt"], keep, ref_rm,
                           dict(body0, mode=label, line_bytes=len(line), names_after_line=len(data.decode().split("\n")) - 2))
+        # ---- multi-tree input files: every output tree is judged against ITS input tree
+        def single(tr, argv):
+            open(os.path.join(d, "one.nw"), "w").write(newick(tr) + "\n")
+            rc, so, se = cli.run(["prune", "-i", "one.nw"] + argv, d)
+            return rc, so.decode("utf-8", "replace")
+        nmulti = 8 if tier == "quick" else 40
+        for mi in range(nmulti):
+            ntrees = rng.randint(2, 4)
+            base = ["t%d" % i for i in range(rng.randint(8, 14))]
+            same = rng.random() < 0.3
+            trees, tipsets = [], []
+            for j in range(ntrees):
+                names = list(base)
+                if not same:
+                    # drop a few base tips and add tips that only this tree has
+                    for a in rng.sample(base[4:], rng.randint(0, 2)):
+                        names.remove(a)
+                    names += ["u%d_%d" % (j, i) for i in range(rng.randint(0, 3) if j > 0 else 0)]
+                sh = g.shape(names, maxdeg=4, rootdeg=rng.choice([2, 3, 3]))
+                tr = g.decorate(sh, lenmode="all", supmode="mixed")
+                trees.append(tr); tipsets.append(leaves(tr))
+            open(os.path.join(d, "tree.nw"), "w").write("".join(newick(tr) + "\n" for tr in trees))
+            # the first four base tips stay in every tree, so at least 3 tips always remain
+            removable = base[4:] + [a for ts in tipsets for a in ts if a.startswith("u")]
+            remove = rng.sample(removable, rng.randint(1, max(1, len(removable) - 1)))
+            keepnames = sorted(set(a for ts in tipsets for a in ts) - set(remove))
+            comp_tips = keepnames + ["onlycomp1", "onlycomp2"]
+            open(os.path.join(d, "comp.nw"), "w").write("(" + ",".join(comp_tips) + ");\n")
+            open(os.path.join(d, "tips.txt"), "w").write(",".join(remove[:len(remove) // 2]) + "\n" + "\n".join(remove[len(remove) // 2:]) + "\n")
+            open(os.path.join(d, "keep.txt"), "w").write("\n".join(keepnames) + "\n")
+            modes = [("multi args", remove, False), ("multi args -r", ["-r"] + keepnames, True),
+                     ("multi -f", ["-f", "tips.txt"], False), ("multi -r -f", ["-r", "-f", "keep.txt"], True),
+                     ("multi -c", ["-c", "comp.nw"], False)]
+            for label, argv, rev in modes:
+                rc, so, se = prune(argv)
+                info["evaluations"] += 1
+                info["cli_layouts"][label] = info["cli_layouts"].get(label, 0) + 1
+                body = {"trees": [newick(tr) for tr in trees], "argv": argv, "remove": remove, "mode": label, "stdout": so[:600]}
+                lines = [l for l in so.split("\n") if l.strip()]
+                if rc != 0 or "panic" in se or len(lines) != ntrees:
+                    fails.append((label, "`gotree prune %s` on %d trees: rc=%d, %d output trees: %s" %
+                                  (" ".join(argv[:6]), ntrees, rc, len(lines), se[:200]), body)); continue
+                bad = False
+                for j, (tr, ts, line) in enumerate(zip(trees, tipsets, lines)):
+                    want = sorted(a for a in ts if a not in remove)
+                    got = sorted(_tips_of_newick(line))
+                    if got != want:
+                        fails.append((label, "`gotree prune %s` (%s): output tree %d of %d does not have the requested tips of ITS input "
+                                      "tree: %d tips instead of %d; not removed: %s; wrongly removed: %s" %
+                                      (" ".join(argv[:6]), label, j + 1, ntrees, len(got), len(want),
+                                       sorted(set(got) - set(want))[:5], sorted(set(want) - set(got))[:5]), body))
+                        bad = True; break
+                    # same tree as the one-tree run with this tree's own removal list on the command line
+                    rc1, so1 = single(tr, [a for a in ts if a in remove] or ["none_to_remove"])
+                    if rc1 != 0 or so1.strip() != line.strip():
+                        fails.append((label, "`gotree prune %s` (%s): output tree %d differs from pruning that tree alone" %
+                                      (" ".join(argv[:6]), label, j + 1), body))
+                        bad = True; break
+                if not bad:
+                    info["distinct_nontrivial"] += 1
     finally:
         shutil.rmtree(d, ignore_errors=True)
     return fails, info
